@@ -35,11 +35,11 @@ SumTo(m, n) == IF n = 0 THEN 0 ELSE m[n] + SumTo(m, n - 1)
 NextMadeGrew == /\ pos + 2 <= Len(Rec) /\ Rec[pos + 2].ev = "made"
                 /\ SumTo(Rec[pos + 2].made, Len(Rec[pos + 2].made)) >= SumTo(obsMade, MaxCalls) + Len(sockets)
 TConn ==
-  /\ Adv /\ R.ev = "conn" /\ ConnObs(R.s, R.by, dead = 1 /\ (nw = 1 \/ NextMadeGrew)) /\ UNCHANGED <<obsMade, obsPhase>>
+  /\ Adv /\ R.ev = "conn" /\ ConnObs(R.s, R.by, dead = 2 \/ (dead = 1 /\ (nw = 1 \/ NextMadeGrew))) /\ UNCHANGED <<obsMade, obsPhase>>
 \* "end" of a run; "survived": a service call panicked but the worker's services were not destroyed - no worker died
 TEnd == Adv /\ R.ev \in {"end", "survived"} /\ UNCHANGED <<vars, obsMade, obsPhase>>
 TFail == Adv /\ R.ev = "fail" /\ FailReady(R.c) /\ UNCHANGED <<obsMade, obsPhase>>
-TDie == Adv /\ R.ev = "die" /\ Die /\ UNCHANGED <<obsMade, obsPhase>>
+TDie == Adv /\ ((R.ev = "die" /\ Die) \/ (R.ev = "die2" /\ DieBoth)) /\ UNCHANGED <<obsMade, obsPhase>>
 TPend == Adv /\ R.ev = "pend" /\ Pend(R.c) /\ UNCHANGED <<obsMade, obsPhase>>
 \* R.late: what the clients that waited were answered with after the last pending call became ready (arrival order)
 TUnpend == Adv /\ R.ev = "unpend" /\ UnpendObs(R.c, R.late) /\ UNCHANGED <<obsMade, obsPhase>>
